@@ -842,8 +842,8 @@ def r4(ctx, r):
     okc = False
     if acr:
         okv = [v["n"] for e in de.stmts() if e.node.get("k") == "decl" for v in e.node["vars"] if v.get("init") is not None and "appendCharRef" in show(v["init"])]
-        nb = [b for b in de.blocks.values() if b.cond is not None and okv and show(strip_casts(b.cond)) in ("!" + okv[0],)]
-        okc = bool(nb) and any(e.kind == "stmt" and e.node.get("k") == "ret" and const_value(strip_casts(e.node.get("v") or {})) == 0 for e in _reach_until_ret(de, nb[0].succs[0]))
+        nb = [b for b in de.blocks.values() if b.cond is not None and okv and show(common.branch(b)[0] or {}) == okv[0]]
+        okc = bool(nb) and any(e.kind == "stmt" and e.node.get("k") == "ret" and const_value(strip_casts(e.node.get("v") or {})) == 0 for e in _reach_until_ret(de, common.branch(nb[0])[2]))
     r.expect(okc, de, None, "bad character reference accepted", "a failing appendCharRef does not fail decodeEntities", okdesc="invalid character reference → error")
     # no I/O anywhere in the header
     n = 0
@@ -989,7 +989,9 @@ def r5(ctx, r):
     # the encoder's verdict is propagated
     r.instance()
     callb = [b for b in acr.blocks.values() if b.cond is not None and "encodeUtf8" in show(b.cond)]
-    r.expect(len(callb) == 1 and strip_casts(callb[0].cond).get("k") == "un" and any(e.kind == "stmt" and e.node.get("k") == "ret" and const_value(strip_casts(e.node.get("v") or {})) == 0 for e in acr.blocks[callb[0].succs[0]].elems),
+    cbr = common.branch(callb[0]) if len(callb) == 1 else (None, None, None)
+    r.expect(len(callb) == 1 and cbr[0] is not None and cbr[0].get("k") in ("call", "mcall") and cbr[2] is not None and
+             any(e.kind == "stmt" and e.node.get("k") == "ret" and const_value(strip_casts(e.node.get("v") or {})) == 0 for e in acr.blocks[cbr[2]].elems),
              acr, None, "encoder verdict dropped", "appendCharRef ignores a failing encodeUtf8", okdesc="encoder failure → appendCharRef fails")
 
 
